@@ -52,6 +52,12 @@ pub enum Op {
     Rm {
         path: String,
     },
+    /// `path` becomes a symbolic link to the file `target` (which gets fresh content); later
+    /// writes to `path` go through the link, as an editor or a generator would.
+    Symlink {
+        path: String,
+        target: String,
+    },
     /// Raw file with given content (no graph meaning), e.g. an include or a stray file.
     Raw {
         path: String,
@@ -187,6 +193,9 @@ pub struct StepEff {
     pub chunk: usize,
     /// When the command fails it removes the directories of its outputs if they are empty.
     pub cleandir: bool,
+    /// Where a `deps = msvc` command prints its include notes relative to its other output:
+    /// "first" (default), "last", "last-nonl" (the final note without a newline), "mid".
+    pub notes_at: String,
 }
 
 pub fn strs(v: &Value) -> Vec<String> {
@@ -220,6 +229,7 @@ pub fn step_effs(g: &Value) -> Vec<StepEff> {
                 depfile_text: eff["depfile_text"].as_str().map(|s| s.to_string()),
                 chunk: eff["chunk"].as_u64().unwrap_or(0) as usize,
                 cleandir: eff["cleandir"].as_bool().unwrap_or(false),
+                notes_at: eff["notes_at"].as_str().unwrap_or("first").to_string(),
             });
         }
     }
